@@ -192,10 +192,18 @@ def judge(ctx, R, A, site, tags, graded=True):
     eps = refq.EPS
     nrm = refq.fro(A)
     A0 = refq.fa(A).copy()
+    # ENVIRONMENT: every third input is factored while the caller's numpy error mode is divide='raise', invalid='raise' (a common debugging
+    # setting): a 0/0 or x/0 evaluated on the way - even if its result is discarded - then turns a correct answer into an exception
+    strict = (int(np.sum(refq.fa(A) != 0)) + m + 2 * n) % 3 == 0
     try:
-        Q, Rr = R.qsvd.qr_qua(A)
+        if strict:
+            ctx.hit("environment:numpy_errstate_raise")
+            with np.errstate(divide="raise", invalid="raise"):
+                Q, Rr = R.qsvd.qr_qua(A)
+        else:
+            Q, Rr = R.qsvd.qr_qua(A)
     except Exception as e:
-        ctx.check("unexpected_exception", False, site=site, tags=tags, detail={"exception": repr(e), "shape": [m, n]})
+        ctx.check("unexpected_exception", False, site=site + (":errstate_raise" if strict else ""), tags=tags, detail={"exception": repr(e), "shape": [m, n]})
         return
     ctx.check("input_unchanged", np.array_equal(refq.fa(A), A0), site=site, tags=tags)
     ok = Q.shape == (m, N) and Rr.shape == (N, n)
